@@ -24,7 +24,55 @@ def selftest():
             if not ok:
                 print(out[-2000:])
                 bad += 1
+    bad += binding_controls()
     return 2 if bad else 0
+
+
+def binding_controls():
+    """the trace specifications must reject corrupted recordings (a spec nothing binds to the code would accept them)"""
+    import json
+    import tempfile
+    from . import tlc
+    bad = 0
+
+    def trace_run(module, payload, invariants, post=None):
+        with tempfile.NamedTemporaryFile("w", suffix=".json", delete=False) as f:
+            json.dump(payload, f)
+        try:
+            return tlc.run_tlc(module, {}, spec="TSpec" if module == "Trace_CooBuffer" else "Spec", invariants=invariants,
+                               postcondition=post, workers=1, env={"TRACE_FILE": f.name}, timeout=300)
+        finally:
+            os.unlink(f.name)
+    # 1. accumulator: a faithful 2-step trace is accepted, the same trace with one corrupted value is reported
+    st1 = {"k": 1, "v": 1, "ind": 1, "depth": 0, "cap": 20, "mn": [0] * 10, "key": [1], "val": [1]}
+    st2 = {"k": 2, "v": 1, "ind": 2, "depth": 0, "cap": 20, "mn": [0] * 10, "key": [1, 2], "val": [1, 1]}
+    good = {"limit": 3, "cap0": 20, "maxkey": 2, "fixed": True, "traces": [{"steps": [st1, st2]}]}
+    r = trace_run("Trace_CooBuffer", good, ["Mark", "Conserved"], "Accepted")
+    ok1 = r.ok and not any("mismatch_tid" in p for p in r.prints)
+    corrupt = json.loads(json.dumps(good))
+    corrupt["traces"][0]["steps"][1]["val"] = [1, 2]
+    r = trace_run("Trace_CooBuffer", corrupt, ["Mark", "Conserved"], "Accepted")
+    ok2 = any("mismatch_tid" in p and "val" in p["bad"] for p in r.prints)
+    print("binding control Trace_CooBuffer: faithful accepted=%s corrupted reported=%s" % (ok1, ok2))
+    bad += 0 if (ok1 and ok2) else 1
+    # 2. protocol: a history whose second transform returns a different row class for the same item is reported
+    def call(op, b):
+        return {"op": op, "b": b, "knob": 0, "expect_ok": True}
+
+    def obs(rows, **kw):
+        o = dict(rows=rows, width=3, ret_self=True, args_ok=True, params_ok=True, model_ok=True, tmp_ok=True, raised=False, model=1)
+        o.update(kw)
+        return o
+    hist = [{"steps": [{"c": call("fit", [1, 2]), "o": obs([])}, {"c": call("transform", [1, 2]), "o": obs([1, 2])},
+                       {"c": call("transform", [2, 1]), "o": obs([2, 1])}]},
+            {"steps": [{"c": call("fit", [1, 2]), "o": obs([])}, {"c": call("transform", [1, 2]), "o": obs([1, 2])},
+                       {"c": call("transform", [2, 1]), "o": obs([2, 2], args_ok=False)}]}]
+    r = trace_run("Trace_Protocol", hist, ["Mark"], "Finished")
+    flagged = {int(p["clauses_tid"]): p["bad"] for p in r.prints if "clauses_tid" in p}
+    ok = (1 not in flagged) and 2 in flagged and "row_depends_only_on_item_and_model" in flagged[2] and "arguments_modified" in flagged[2]
+    print("binding control Trace_Protocol: faithful accepted, corrupted reported =", ok)
+    bad += 0 if ok else 1
+    return bad
 
 
 def main():
